@@ -17,16 +17,17 @@ import (
 // reachability questions on the product of this graph with the valuation of the body's
 // boolean flag variables (ESP-style: finite domain, no solver).
 type Graph struct {
-	P     *Prog
-	Pkg   *packages.Package
-	Info  *types.Info
-	Fn    *Func
-	Lit   *Lit // nil for a declaration body
-	Body  *ast.BlockStmt
-	Nodes []*GNode
-	Entry *GNode
-	Flags []*types.Var // tracked boolean locals
-	flagIx map[*types.Var]int
+	P       *Prog
+	Pkg     *packages.Package
+	Info    *types.Info
+	Fn      *Func
+	Lit     *Lit // nil for a declaration body
+	Body    *ast.BlockStmt
+	Nodes   []*GNode
+	Entry   *GNode
+	Flags   []*types.Var            // tracked boolean locals
+	aliases map[*types.Var]ast.Expr // boolean locals that name a stable condition (see condAlias)
+	flagIx  map[*types.Var]int
 
 	switchTag map[ast.Expr]ast.Expr // case expression -> tag expression (nil tag => tagless)
 }
@@ -548,6 +549,12 @@ func (g *Graph) EdgeFacts(e *GEdge) []Fact {
 			if t.Op == token.LAND || t.Op == token.LOR {
 				return // nothing definite about the parts
 			}
+		case *ast.Ident:
+			// a boolean local that names a condition (`found := x == y` ... `if found`): the facts of the condition
+			if def := g.condAlias(t); def != nil {
+				walk(def, want)
+				return
+			}
 		}
 		out = append(out, Fact{X: x, Pos: want})
 	}
@@ -555,15 +562,157 @@ func (g *Graph) EdgeFacts(e *GEdge) []Fact {
 	return out
 }
 
+// condAlias returns E when id is a boolean local defined exactly once by `id := E` in this body, E is free of calls
+// and every variable in E is a local or parameter that is assigned at most once (its own definition) and never has
+// its address taken: E then has the same value at every later test of id as at the definition.
+func (g *Graph) condAlias(id *ast.Ident) ast.Expr {
+	v, ok := g.Info.Uses[id].(*types.Var)
+	if !ok || v.IsField() {
+		return nil
+	}
+	if b, ok := v.Type().Underlying().(*types.Basic); !ok || b.Kind() != types.Bool {
+		return nil
+	}
+	if g.aliases == nil {
+		g.aliases = map[*types.Var]ast.Expr{}
+		g.computeAliases()
+	}
+	return g.aliases[v]
+}
+
+func (g *Graph) computeAliases() {
+	info := g.Info
+	assigns := map[*types.Var]int{} // number of assignments anywhere under the body (literals included)
+	addr := map[*types.Var]bool{}
+	defs := map[*types.Var]ast.Expr{}
+	varOf := func(e ast.Expr) *types.Var {
+		id, ok := ast.Unparen(e).(*ast.Ident)
+		if !ok {
+			return nil
+		}
+		var o types.Object = info.Defs[id]
+		if o == nil {
+			o = info.Uses[id]
+		}
+		v, _ := o.(*types.Var)
+		return v
+	}
+	ast.Inspect(g.Body, func(n ast.Node) bool {
+		switch t := n.(type) {
+		case *ast.AssignStmt:
+			for i, l := range t.Lhs {
+				if v := varOf(l); v != nil {
+					assigns[v]++
+					if t.Tok == token.DEFINE && len(t.Lhs) == len(t.Rhs) {
+						defs[v] = t.Rhs[i]
+					}
+				}
+			}
+		case *ast.ValueSpec:
+			for _, nm := range t.Names {
+				if v := varOf(nm); v != nil {
+					assigns[v]++
+				}
+			}
+		case *ast.IncDecStmt:
+			if v := varOf(t.X); v != nil {
+				assigns[v] += 2
+			}
+		case *ast.RangeStmt:
+			if t.Key != nil {
+				if v := varOf(t.Key); v != nil {
+					assigns[v]++
+				}
+			}
+			if t.Value != nil {
+				if v := varOf(t.Value); v != nil {
+					assigns[v]++
+				}
+			}
+		case *ast.UnaryExpr:
+			if t.Op == token.AND {
+				if v := varOf(t.X); v != nil {
+					addr[v] = true
+				}
+			}
+		}
+		return true
+	})
+	for v, e := range defs {
+		if assigns[v] != 1 || addr[v] {
+			continue
+		}
+		if b, ok := v.Type().Underlying().(*types.Basic); !ok || b.Kind() != types.Bool {
+			continue
+		}
+		if tv, ok := info.Types[e]; ok && tv.Value != nil {
+			continue // constant: an ordinary flag
+		}
+		stable := true
+		ast.Inspect(e, func(n ast.Node) bool {
+			switch t := n.(type) {
+			case *ast.CallExpr, *ast.FuncLit, *ast.IndexExpr, *ast.StarExpr, *ast.SelectorExpr, *ast.TypeAssertExpr, *ast.SliceExpr:
+				stable = false
+			case *ast.UnaryExpr:
+				if t.Op == token.ARROW || t.Op == token.AND {
+					stable = false
+				}
+			case *ast.Ident:
+				switch o := info.Uses[t].(type) {
+				case *types.Var:
+					if o.IsField() || addr[o] || assigns[o] > 1 || (o.Pkg() != nil && o.Parent() == o.Pkg().Scope()) {
+						stable = false
+					}
+					// captured variables of an enclosing function may change elsewhere: only variables declared
+					// inside this body or parameters of it are stable
+					if o.Pos() < g.Body.Pos() || o.Pos() > g.Body.End() {
+						if !g.isParam(o) {
+							stable = false
+						}
+					}
+				case *types.Const, *types.Nil, *types.TypeName, *types.Builtin:
+				case nil:
+				default:
+					stable = false
+				}
+			}
+			return stable
+		})
+		if stable {
+			g.aliases[v] = e
+		}
+	}
+}
+
+func (g *Graph) isParam(v *types.Var) bool {
+	var ft *ast.FuncType
+	if g.Lit != nil {
+		ft = g.Lit.Lit.Type
+	} else if g.Fn != nil {
+		ft = g.Fn.Decl.Type
+	}
+	if ft == nil || ft.Params == nil {
+		return false
+	}
+	for _, fl := range ft.Params.List {
+		for _, nm := range fl.Names {
+			if g.Info.Defs[nm] == v {
+				return true
+			}
+		}
+	}
+	return false
+}
+
 // ---- queries ----
 
 // Query describes a reachability question.
 type Query struct {
-	From      []*GNode            // start nodes (execution starts *after* these nodes unless FromEntry)
-	FromEntry bool                // start at function entry (before the first node)
-	AvoidNode func(*GNode) bool   // nodes that may not be passed (a start node itself is not tested)
-	AvoidEdge func(*GEdge) bool   // edges that may not be taken
-	NoFlags   bool                // ignore flag valuations (path-insensitive)
+	From      []*GNode          // start nodes (execution starts *after* these nodes unless FromEntry)
+	FromEntry bool              // start at function entry (before the first node)
+	AvoidNode func(*GNode) bool // nodes that may not be passed (a start node itself is not tested)
+	AvoidEdge func(*GEdge) bool // edges that may not be taken
+	NoFlags   bool              // ignore flag valuations (path-insensitive)
 }
 
 type state struct {
